@@ -473,17 +473,25 @@ Proof.
   apply IH. intros z Hz. apply H. right. exact Hz.
 Qed.
 
+Lemma assocZ_map_find {A} (slot : Z -> Z) (g : Z -> A) l p :
+  assocZ p (map (fun t => (slot t, g t)) l)
+  = match find (fun t => slot t =? p) l with Some t => Some (g t) | None => None end.
+Proof.
+  induction l as [|x r IH]; [reflexivity|]. cbn [map assocZ find]. rewrite (Z.eqb_sym p (slot x)).
+  destruct (slot x =? p); [reflexivity | exact IH].
+Qed.
+
 Lemma capture_at ts slot h f t :
   In t ts -> (forall t', In t' ts -> slot t' = slot t -> t' = t) -> capture ts slot h f (slot t) = h t f.
 Proof.
-  intros Hin Hinj. unfold capture. cbv zeta. rewrite <- rev_alt. rewrite (find_unique _ (rev ts) t); [reflexivity | | |].
+  intros Hin Hinj. unfold capture. cbv zeta. rewrite <- rev_alt, assocZ_map_find. rewrite (find_unique _ (rev ts) t); [reflexivity | | |].
   - apply in_rev in Hin. exact Hin.
   - apply Z.eqb_refl.
   - intros y Hy He. apply Z.eqb_eq in He. apply Hinj; [apply in_rev; exact Hy | exact He].
 Qed.
 Lemma capture_miss ts slot h f p : (forall t, In t ts -> slot t <> p) -> capture ts slot h f p = 0.
 Proof.
-  intro H. unfold capture. cbv zeta. rewrite <- rev_alt. rewrite find_none_all; [reflexivity|].
+  intro H. unfold capture. cbv zeta. rewrite <- rev_alt, assocZ_map_find. rewrite find_none_all; [reflexivity|].
   intros y Hy. apply Z.eqb_neq. apply H. apply in_rev. exact Hy.
 Qed.
 
@@ -859,7 +867,7 @@ Section HeurNoDup.
 
   Lemma unique_hw_eq : unique_hw fields fv lv = variant_hw fields fv lv.
   Proof.
-    unfold unique_hw. rewrite duplicate_hw_nil. cbn [assocZ]. rewrite map_id.
+    unfold unique_hw. cbv zeta. rewrite duplicate_hw_nil. cbn [assocZ]. rewrite map_id.
     apply set_sort_id. apply asc_filter. exact Hasc.
   Qed.
 
@@ -868,11 +876,11 @@ Section HeurNoDup.
   Lemma heur_table_eq : heur_table fields fv lv = tbl_of heur_fn fields.
   Proof.
     pose proof (asc_NoDup _ Hasc) as Hnd.
-    unfold heur_table. rewrite tbl_init_of.
+    unfold heur_table. cbv zeta. fold (heur_step fields fv lv). rewrite tbl_init_of.
     set (u := fun hw => if memZ hw (variant_hw fields fv lv) then Some (hx_tbl_unique hw)
                         else if memZ hw (invariant_nonzero_hw fields fv lv) then Some (hx_tbl_invariant (fv hw)) else None).
     assert (Hstep : forall T hw, heur_step fields fv lv T hw = match u hw with Some v => tbl_set T hw v | None => T end).
-    { intros T hw. unfold heur_step, u. rewrite unique_hw_eq, duplicate_hw_nil. cbn [assocZ].
+    { intros T hw. unfold heur_step, heur_step_with, u. rewrite unique_hw_eq, duplicate_hw_nil. cbn [assocZ].
       destruct (memZ hw (invariant_nonzero_hw fields fv lv)); destruct (memZ hw (variant_hw fields fv lv));
         try reflexivity. apply tbl_set_set. }
     rewrite (fold_left_ext_pw _ _ Hstep fields). rewrite (fold_upd_of u fields Hnd fields) by tauto.
